@@ -167,6 +167,16 @@ def _install_getitem(ser):
 
     ser.BlockSeries.__getitem__ = getitem
 
+    orig_pop = ser.BlockSeries.pop
+    _popped = set()
+
+    def pop(self, item, default, /):
+        if item in self._data:
+            COUNTERS["deletions"] += 1
+        return orig_pop(self, item, default)
+
+    ser.BlockSeries.pop = pop
+
 
 # ---- product_by_order contract ---------------------------------------------------------------
 def _numeric(x):
